@@ -1292,6 +1292,7 @@ bool SPxSolverBase<R>::performSolutionPolishing()
       alloweddeviation = entertol();
 
       instableEnter = false;
+      thepricer->setType(type());
       theratiotester->setType(type());
 
       int nrows = this->nRows();
@@ -1454,6 +1455,7 @@ bool SPxSolverBase<R>::performSolutionPolishing()
       init();
       alloweddeviation = leavetol();
       instableLeave = false;
+      thepricer->setType(type());
       theratiotester->setType(type());
       bool useIntegrality = false;
       int ncols = this->nCols();
